@@ -365,6 +365,27 @@ func deriveCase(c *ev.Case) {
 	if ds := chainkd.DeriveXPubs([]chainkd.XPub{rootPub, pub}, path); len(ds) != 2 || ds[0] != dpub || ds[1] != pub.Derive(path) {
 		c.Violation("derive:DeriveXPubs-mismatch", "DeriveXPubs differs from XPub.Derive", wit)
 	}
+	// the list helpers (multisig signers): each element is the helper applied to that element, and the
+	// signature of the key derived from xprv i verifies under element i and under no other element
+	{
+		xs := []chainkd.XPub{rootPub, pub, dpub}
+		pks := chainkd.XPubKeys(xs)
+		for i := range xs {
+			if len(pks) != len(xs) || !bytes.Equal(pks[i], xs[i].PublicKey()) {
+				wit["index"], wit["list_length"] = i, len(xs)
+				c.Violation("derive:XPubKeys[i]!=xpubs[i].PublicKey", "XPubKeys of a list differs from PublicKey() of its elements", wit)
+				okAll = false
+				break
+			}
+		}
+		msg := rng.Bytes(rng.Intn(40))
+		sig := dprv.Sign(msg)
+		if len(pks) == 3 && (!ed25519.Verify(pks[2], msg, sig) || ed25519.Verify(pks[0], msg, sig)) && rootPub != dpub {
+			c.Violation("derive:XPubKeys-signature-mismatch", "a signature by the derived xprv does not verify under its own entry of XPubKeys (or verifies under another one)", wit)
+			okAll = false
+		}
+		c.Count("xpubkeys_lists_checked", 1)
+	}
 	if okAll {
 		c.Count("paths_commute", 1)
 		c.Count(fmt.Sprintf("paths_commute_depth=%d", depth), 1)
